@@ -110,6 +110,12 @@ fn honest(rep: &Report) {
                     if da != db || a.jwt != b.jwt || a.kb.is_some() != b.kb.is_some() {
                         l.violation(mk("formats_disagree", "c10_holder_outputs_differ".into(), format!("{} vs {} disclosures", da.len(), db.len())));
                     }
+                    // the two holders' own outputs, each verified in its own format, must agree too
+                    let va = drive::verify(outs[0].0.as_ok().unwrap(), keys::issuer_dec(cfg.alg, 0), aud, nonce, outs[0].1);
+                    let vb = drive::verify(outs[1].0.as_ok().unwrap(), keys::issuer_dec(cfg.alg, 0), aud, nonce, outs[1].1);
+                    if !same(&va, &vb) {
+                        l.violation(mk(if va.is_panic() || vb.is_panic() { "panic" } else { "formats_disagree" }, "c10_holder_outputs_verify_differently".into(), format!("{} holder: {} ; {} holder: {}", outs[0].1.name(), va.describe(), outs[1].1.name(), vb.describe())));
+                    }
                     // and both presentations verify alike in both formats
                     both(a, &keys::issuer_dec(cfg.alg, 0), aud, nonce, "honest", "holder output (issued form)", l);
                     both(b, &keys::issuer_dec(cfg.alg, 0), aud, nonce, "honest", "holder output (transcoded form)", l);
@@ -378,6 +384,18 @@ pub fn replay(case: &Value) -> Vec<Violation> {
                     if outs[0] != outs[1] {
                         let site = if outs[0].is_some() && outs[1].is_some() { "c10_holder_outputs_differ" } else { "c10_holder_verdicts_differ" };
                         l.violation(Violation::new("present", "formats_disagree", site, "honest/holder", String::new(), case.clone()));
+                    }
+                    let (aud, nonce) = if cfg.hk != Hk::None { (Some(pipeline::AUD), Some(pipeline::NONCE)) } else { (None, None) };
+                    let mut verdicts = vec![];
+                    for (text, f) in [(&cred.issued, cfg.fmt), (&transcoded, other)] {
+                        if let Out::Ok(mut h) = drive::holder_new(text, f) {
+                            if let Out::Ok(p) = drive::present(&mut h, &sel, &pipeline::kb_args(&cfg)) {
+                                verdicts.push(drive::verify(&p, keys::issuer_dec(cfg.alg, 0), aud, nonce, f));
+                            }
+                        }
+                    }
+                    if verdicts.len() == 2 && !same(&verdicts[0], &verdicts[1]) {
+                        l.violation(Violation::new("present", "formats_disagree", "c10_holder_outputs_verify_differently", "honest/holder", String::new(), case.clone()));
                     }
                 }
             }
